@@ -54,6 +54,11 @@ CHECKS = {
             "Every system the writer accepts (generated systems and the 116 corpus designs) is written and read back into the same context; inputs, states, outputs, bads and constraints are matched by position and type, functions compared by reference, else by the reference evaluator under positionally translated assignments (exhaustive <= 14 symbol bits) and a 20-step lock-step reference simulation; explicit distinct names are checked over a second cycle. Held on the systems executed.",
             "Equivalence by evaluation; init expressions only read earlier states; writer-rejected systems are skipped.",
             "DESIGN.md §4 C09"),
+    "C16": ("exploration",
+            "runtime round-trip monitor: witness_to_string then parse_witness(es), field-by-field comparison with the harness-side description",
+            "Generated complete witnesses (bit-vector and array states, several recorded entries per array, wide values, multi-witness streams) are printed and read back; failed properties, names, values and array contents at every recorded index must be equal; streams must come back one by one for every limit. Held on the witnesses executed.",
+            "Bit-vector inputs only (array inputs are documented as unsupported by the printer); array index width <= 64.",
+            "DESIGN.md §4 C16"),
 }
 
 NOT_YET = {}
